@@ -237,6 +237,37 @@ def check_estimator_xpc(ctx, rs, rep):
         ctx.violation('c20-estimator-xpc-sample', 'estimator (method=xpc) sample(X=...): unfilled entries or changed evidence', replay=rep)
 
 
+def impossible_evidence_case(ctx, rs, rep):
+    """a classifier whose leaves hold probabilities of exactly zero (unsmoothed fit: `learn_leaf_kwargs={'alpha': 0.0}`, a feature value
+    never seen in any class) queried with rows that are impossible under every class, next to ordinary rows: `predict_proba` still
+    returns probability vectors (entries in [0, 1], rows summing to one), and on the possible rows the exact posterior"""
+    n_feat, n_classes = int(rs.randint(3, 6)), int(rs.randint(2, 4))
+    n_rows = int(rs.choice([60, 120]))
+    y = rs.permutation(np.arange(n_rows) % n_classes)
+    centers = rs.rand(n_classes, n_feat)
+    X = (rs.rand(n_rows, n_feat) < (0.15 + 0.7 * centers[y])).astype(np.float32)
+    X[:, 0] = 0.0                                          # never 1 in any class
+    clf = SPNClassifier([Bernoulli] * n_feat, [[0, 1]] * n_feat + [list(range(n_classes))], learn_leaf='mle', split_rows='kmeans', split_cols='gvs',
+                        min_rows_slice=int(rs.choice([20, 40])), min_cols_slice=2, learn_leaf_kwargs={'alpha': 0.0}, random_state=int(rs.randint(1000)), verbose=False)
+    try:
+        clf.fit(X, y.astype(np.float32))
+    except Exception:
+        ctx.count('fit-did-not-return')
+        return
+    Q = X[:8].copy()
+    Q[:4, 0] = 1.0                                         # four impossible rows, four ordinary ones
+    ctx.count('classifiers-queried-with-impossible-evidence')
+    try:
+        P = np.asarray(clf.predict_proba(Q), dtype=np.float64)
+    except Exception as ex:
+        ctx.violation(f'c20-raises:{type(ex).__name__}', f'predict_proba raised {type(ex).__name__}: {str(ex)[:160]} on rows that are impossible under every class', replay=rep)
+        return
+    if P.shape != (8, n_classes) or np.any(np.isnan(P)) or np.any(P < -1e-6) or np.any(P > 1 + 1e-6) or np.any(np.abs(P.sum(axis=1) - 1.0) > 1e-4):
+        r = int(np.argmax(np.abs(np.nan_to_num(P.sum(axis=1), nan=9.0) - 1.0))) if P.shape == (8, n_classes) else 0
+        ctx.violation('c20-proba-not-a-distribution', f'predict_proba on a row that is impossible under every class (feature 0 was never 1 in training, unsmoothed leaves) '
+                      f'returns {P[r].tolist() if P.ndim == 2 else P.shape} (sum {float(np.nansum(P[r])) if P.ndim == 2 else None}): not a probability vector', replay=rep)
+
+
 def clf_case(ctx, k):
     rs = np.random.RandomState(np_seed(ctx.sub_rng('clf', k)))
     n_classes = [2, 3, 5, 2, 4][k % 5]
@@ -326,6 +357,8 @@ def run(ctx):
         rs = np.random.RandomState(np_seed(ctx.sub_rng('est', k)))
         ctx.case('estimator', nontrivial_key=('est', k), sample=dict(kind='estimator', k=k))
         check_estimator(ctx, rs, dict(kind='c20-est', k=k, seed=ctx.seed))
+        if ctx.n_new() == 0:
+            impossible_evidence_case(ctx, rs, dict(kind='c20-impossible', k=k, seed=ctx.seed))
         for j in range(5):
             if ctx.n_new() == 0:
                 check_estimator_xpc(ctx, rs, dict(kind='c20-est-xpc', k=k, j=j, seed=ctx.seed))
